@@ -520,6 +520,21 @@ func init() {
 		}
 		return termVal(byteIsOneOf(s[0], "/"))
 	}
+	m["sort.Strings"] = func(fr *frame, a []value) value {
+		vs := a[0].([]value)
+		// insertion sort; each comparison of symbolic strings is decided by a fork
+		for i := 1; i < len(vs); i++ {
+			for j := i; j > 0; j-- {
+				x, _ := strBytes(vs[j])
+				y, _ := strBytes(vs[j-1])
+				if !fr.i.R.decide(symstrLess(x, y, false)) {
+					break
+				}
+				vs[j], vs[j-1] = vs[j-1], vs[j]
+			}
+		}
+		return nil
+	}
 	m["strconv.Quote"] = func(fr *frame, a []value) value {
 		s := bs(a[0])
 		for _, c := range s {
